@@ -68,6 +68,12 @@ def _path_args(text):
     return [m.group(2) for m in re.finditer(rb'path\s+(["\'])(.*?)\1', text, re.S)] + [m.group(1) for m in re.finditer(rb'<path\s+value="([^"]*)"', text)]
 
 
+def _selfref_union_leafref(text):
+    """a leaf / leaf-list NAME whose type is a union with a member `type leafref { path /NAME; }` (the target is the leaf itself)"""
+    return re.search(rb'\b(?:leaf|leaf-list)\s+([\w.-]+)\s*\{(?:(?!\bleaf\b|\bleaf-list\b).)*?\btype\s+union\s*\{(?:(?!\bleaf\b|\bleaf-list\b).)*?'
+                     rb'\bpath\s+["\']?/(?:[\w.-]+:)?\1["\']?\s*;', text, re.S) is not None
+
+
 def classify(component, what, case):
     if not isinstance(case, dict):
         return None
@@ -106,6 +112,9 @@ def classify(component, what, case):
     if law == "leak":
         if "xml_print_ns" in fset and ("lyd_print_mem" in fset or "xml_print_data" in fset):
             return "F57"
+        # F103: an accepted module whose leaf(-list) has a union with a leafref member that points at the leaf itself
+        if entry.startswith("lys_parse_mem") and reply[:1] == ["ok"] and {"lys_compile_type_union", "lys_compile_node_type"} <= fset and _selfref_union_leafref(inp):
+            return "F103"
         if "lydjson_parse_any" in fset and reply[1:2] == ["EVALID"] and b"[" in inp:
             return "F60"
         if "lydxml_subtree_any" in fset and reply[1:2] == ["EVALID"] and b"<any" in inp:
